@@ -42,6 +42,14 @@ Classes (added for C19):
                                             of rbql.js are empty); super(...rest) of an Error subclass is dropped too (the message);
                                             constructor(a, ...rest) -> def __init__(self, a, *rest); static members, getters, setters: rejected
   break                                     break
+  try { A } catch (e) { B }                 try: A  except Exception as e: B         (no finally)
+  x instanceof C                            isinstance(x, C)
+  s.length && c  /  s.length || c           len(s) > 0 and c  /  len(s) > 0 or c     (a length used as a truth value)
+  xs.pop()                                  xs.pop()
+  const m = require('./m.js'); m.f(a)       import js_m as m; m.f(a)                 (call by the contract of js_m.f)
+  this.f.m(a), this.m(a), x.m(a)            the same method call, for m not a JavaScript string/array method: accepted by the executor only when the
+                                            contracts declare the receiver's class and give m an (assumed) contract; an object-literal argument
+                                            (options) is passed as the opaque constant '{...}'
   async m() / await e                       the method / e          (A-JS-AWAIT: an awaited call has completed when the next
                                                                      statement runs; interleaving with OTHER tasks touching the same
                                                                      objects is outside the properties, which exclude concurrent queries)
@@ -73,6 +81,13 @@ class Unsupported(Exception):
     pass
 
 
+# methods of JavaScript strings and arrays that have no special reading here: never passed through as calls by contract
+JS_STRING_ARRAY_METHODS = set(['map', 'filter', 'reduce', 'forEach', 'join', 'sort', 'reverse', 'splice', 'shift', 'fill', 'keys', 'values', 'entries', 'trim', 'match',
+                               'search', 'test', 'toLowerCase', 'toUpperCase', 'startsWith', 'endsWith', 'includes', 'repeat', 'padStart', 'padEnd', 'findIndex', 'find',
+                               'some', 'every', 'flat', 'from', 'isArray', 'hasOwnProperty', 'charCodeAt', 'localeCompare', 'lastIndexOf', 'slice', 'substring', 'substr',
+                               'split', 'replace', 'concat', 'push', 'pop', 'indexOf', 'charAt', 'get', 'set', 'has', 'add', 'delete', 'clear', 'unshift'])
+
+
 def estree(path):
     out = subprocess.run(['node', '--expose-internals', os.path.join(HERE, 'js', 'dump_ast.js'), path], capture_output=True, text=True, timeout=60)
     if out.returncode != 0:
@@ -94,6 +109,7 @@ class Translator(object):
         self.local_regex = {}
         self.match_vars = set()
         self.tuple_vars = set()
+        self.required = {}            # local name -> module name, for `const m = require('./m.js')`
         self.str_consts = set()       # module-level const names initialised with a certainly-string expression
         self.class_names = set()      # classes declared in the module: new C(...) -> C(...)
         self.method_names = set()     # methods declared by those classes: o.m(...) stays a method call
@@ -130,9 +146,12 @@ class Translator(object):
         base = n.get('superClass')
         bases = []
         if base is not None:
-            if base['type'] != 'Identifier':
+            if base['type'] == 'MemberExpression' and not base['computed'] and base['object']['type'] == 'Identifier' and base['object']['name'] in self.required:
+                bases = [ast.Attribute(value=ast.Name(id=base['object']['name'], ctx=ast.Load()), attr=base['property']['name'], ctx=ast.Load())]
+            elif base['type'] != 'Identifier':
                 raise Unsupported('computed base class')
-            bases = [ast.Name(id='Exception' if base['name'] == 'Error' else base['name'], ctx=ast.Load())]
+            else:
+                bases = [ast.Name(id='Exception' if base['name'] == 'Error' else base['name'], ctx=ast.Load())]
         body = []
         skipped = {}
         for m in n['body']['body']:
@@ -150,7 +169,7 @@ class Translator(object):
                             sargs = st['expression']['arguments']
                             rest = [q['argument']['name'] for q in fn['params'] if q['type'] == 'RestElement' and q['argument']['type'] == 'Identifier']
                             only_rest = (len(sargs) == 1 and sargs[0]['type'] == 'SpreadElement' and sargs[0]['argument']['type'] == 'Identifier' and sargs[0]['argument']['name'] in rest)
-                            if sargs and not (only_rest and base is not None and base['name'] == 'Error'):
+                            if sargs and not (only_rest and base is not None and base.get('name') == 'Error'):
                                 raise Unsupported('super(...) with arguments')
                             continue        # super(...rest) of an Error subclass passes the message on: the translated class keeps no message
                         keep.append(st)
@@ -276,6 +295,11 @@ class Translator(object):
             return self.block(s)
         if t == 'EmptyStatement':
             return []
+        if t == 'TryStatement' and s.get('finalizer') is None and s.get('handler') is not None:
+            h = s['handler']
+            pname = h['param']['name'] if h.get('param') is not None and h['param']['type'] == 'Identifier' else None
+            handler = ast.ExceptHandler(type=ast.Name(id='Exception', ctx=ast.Load()), name=pname, body=self.block(h['body']) or [ast.Pass()])
+            return [_loc(ast.Try(body=self.block(s['block']) or [ast.Pass()], handlers=[_loc(handler, h)], orelse=[], finalbody=[]), s)]
         if t == 'BreakStatement' and s.get('label') is None:
             return [_loc(ast.Break(), s)]
         raise Unsupported('statement %s at line %d' % (t, s['loc']['start']['line']))
@@ -395,7 +419,14 @@ class Translator(object):
             op = {'||': ast.Or(), '&&': ast.And()}.get(e['operator'])
             if op is None:
                 raise Unsupported('logical %s' % e['operator'])
-            return _loc(ast.BoolOp(op=op, values=[self.expr(e['left']), self.expr(e['right'])]), e)
+
+            def operand(x):
+                # `s.length && c`: a length used as a truth value is the test `len(s) > 0` (the value 0 / false of the whole expression is only
+                # ever used as a truth value where rbql-js writes this)
+                if x['type'] == 'MemberExpression' and not x['computed'] and x['property']['name'] == 'length':
+                    return ast.Compare(left=self.expr(x), ops=[ast.Gt()], comparators=[ast.Constant(value=0)])
+                return self.expr(x)
+            return _loc(ast.BoolOp(op=op, values=[operand(e['left']), operand(e['right'])]), e)
         if t == 'ConditionalExpression':
             return _loc(ast.IfExp(test=self.expr(e['test']), body=self.expr(e['consequent']), orelse=self.expr(e['alternate'])), e)
         if t == 'BinaryExpression':
@@ -409,6 +440,8 @@ class Translator(object):
                     return _loc(ast.Compare(left=self.expr(other), ops=[op], comparators=[ast.Constant(value=None)]), e)
                 op = ast.Eq() if o in ('===', '==') else ast.NotEq()
                 return _loc(ast.Compare(left=self.expr(l), ops=[op], comparators=[self.expr(r)]), e)
+            if o == 'instanceof' and r['type'] == 'Identifier':
+                return _loc(ast.Call(func=ast.Name(id='isinstance', ctx=ast.Load()), args=[self.expr(l), ast.Name(id=r['name'], ctx=ast.Load())], keywords=[]), e)
             cmp = {'<': ast.Lt(), '<=': ast.LtE(), '>': ast.Gt(), '>=': ast.GtE()}
             if o in cmp:
                 return _loc(ast.Compare(left=self.expr(l), ops=[cmp[o]], comparators=[self.expr(r)]), e)
@@ -477,6 +510,11 @@ class Translator(object):
                     return _loc(ast.Call(func=ast.Name(id='__js_map_get', ctx=ast.Load()), args=[self.expr(o), self.expr(args[0])], keywords=[]), e)
                 if m == 'add' and len(args) == 1:
                     return _loc(ast.Call(func=ast.Attribute(value=self.expr(o), attr='add', ctx=ast.Load()), args=[self.expr(args[0])], keywords=[]), e)
+                if m == 'pop' and len(args) == 0:
+                    return _loc(ast.Call(func=ast.Attribute(value=self.expr(o), attr='pop', ctx=ast.Load()), args=[], keywords=[]), e)
+                if o['type'] == 'Identifier' and o['name'] in self.required:
+                    # f of a module bound by `const m = require('./m.js')`: a call by contract of that module's function
+                    return _loc(ast.Call(func=ast.Attribute(value=ast.Name(id=o['name'], ctx=ast.Load()), attr=m, ctx=ast.Load()), args=[self.expr(a) for a in args], keywords=[]), e)
                 if m == 'unshift' and len(args) == 1:
                     return _loc(ast.Call(func=ast.Attribute(value=self.expr(o), attr='insert', ctx=ast.Load()), args=[ast.Constant(value=0), self.expr(args[0])], keywords=[]), e)
                 if m == 'concat' and len(args) == 1:
@@ -503,6 +541,12 @@ class Translator(object):
                                          args=[ast.Constant(value=rx['pattern']), self.expr(args[1])], keywords=[]), e)
                 if m in self.method_names:
                     return _loc(ast.Call(func=ast.Attribute(value=self.expr(o), attr=m, ctx=ast.Load()), args=[self.expr(a) for a in args], keywords=[]), e)
+                if m not in JS_STRING_ARRAY_METHODS and (o['type'] == 'ThisExpression' or (o['type'] == 'MemberExpression' and not o['computed'] and o['object']['type'] == 'ThisExpression')
+                                                         or (o['type'] == 'Identifier' and o['name'] not in self.match_vars)):
+                    # a method of an object the file does not define (decoder, stream, Buffer, a method stored in a field): kept as a method call;
+                    # the executor accepts it only if the contracts declare the receiver's class and give that method an (assumed) contract
+                    return _loc(ast.Call(func=ast.Attribute(value=self.expr(o), attr=m, ctx=ast.Load()),
+                                         args=[self.expr(a) for a in args if a['type'] != 'ObjectExpression'] + [ast.Constant(value='{...}') for a in args if a['type'] == 'ObjectExpression'], keywords=[]), e)
                 raise Unsupported('method .%s/%d at line %d' % (m, len(args), e['loc']['start']['line']))
             raise Unsupported('call form')
         if t == 'AssignmentExpression':
@@ -536,9 +580,21 @@ def translate_file(path, module_name):
                 walk(v)
     walk(tree)
     # module-level constants first: string constants and `new RegExp(<string expr>)`
+    REQ = {'./csv_utils.js': 'js_csv_utils', './rbql.js': 'js_rbql', './rbql_csv.js': 'js_rbql_csv'}
     for n in tree['body']:
         if n['type'] == 'VariableDeclaration':
             for d in n['declarations']:
+                i = d.get('init')
+                if (i is not None and i['type'] == 'CallExpression' and i['callee']['type'] == 'Identifier' and i['callee']['name'] == 'require'
+                        and len(i['arguments']) == 1 and i['arguments'][0]['type'] == 'Literal' and d['id']['type'] == 'Identifier'):
+                    target = REQ.get(i['arguments'][0]['value'], i['arguments'][0]['value'])
+                    tr.required[d['id']['name']] = target
+                    body.append(_loc(ast.Import(names=[ast.alias(name=target, asname=d['id']['name'])]), n))
+    for n in tree['body']:
+        if n['type'] == 'VariableDeclaration':
+            for d in n['declarations']:
+                if d['id'].get('name') in tr.required:
+                    continue
                 try:
                     if d['init'] is not None and d['init']['type'] == 'NewExpression':
                         tr.module_regexes[d['id']['name']] = (None, tr._regex_flags(d['init']))
